@@ -342,6 +342,15 @@ func (f *Fam) doInit(w []string) string {
 	if supply2.IsPositive() {
 		genSupply = genSupply.Add(sdk.NewCoins(sdk.NewCoin(Denom2, supply2)))
 	}
+	if m["gs"] == "derived" {
+		// the genesis leaves the supply to be derived: the pos module is initialised first (its stake is in the pool by
+		// then) and the auth module sums up every account it finds
+		genSupply = sdk.Coins{}
+		f.app.MM.SetOrderInitGenesis(posTypes.ModuleName, authTypes.ModuleName, govTypes.ModuleName)
+		if f.rep != nil {
+			f.rep.app.MM.SetOrderInitGenesis(posTypes.ModuleName, authTypes.ModuleName, govTypes.ModuleName)
+		}
+	}
 	authGen := authTypes.GenesisState{Params: authTypes.DefaultParams(), Accounts: accs, Supply: genSupply}
 	posGen := posTypes.DefaultGenesisState()
 	posGen.Validators = vals
